@@ -630,6 +630,7 @@ func genC14Plan(r *zsim.Rng) *sysPlan {
 	}
 	p.StdoutClosed = r.Chance(1, 10)
 	p.TmpGone = r.Chance(1, 12)
+	p.ExecFails = r.Chance(1, 4)
 	if r.Chance(1, 15) {
 		// Targeted mode: a command started in the foreground runs for most of a minute; SIGTERM / SIGHUP
 		// arrives in the middle of it
